@@ -57,6 +57,99 @@ func init() {
 			Old: "				sb.WriteString(\"0!=0\")", New: "				sb.WriteString(\"0=0\")"})
 }
 
+func init() {
+	Extend("C14", runC14Extra3,
+		Mutant{Name: "seed-C14c-tl2-size-254-written-as-marker-byte", File: "internal/vkgo/basictl/basictl2.go", Rule: "C14-R7",
+			Old: "func TL2WriteSize(w []byte, l int) []byte {\n	switch {\n	case l < mediumStringMarker:", New: "func TL2WriteSize(w []byte, l int) []byte {\n	switch {\n	case l <= mediumStringMarker:"},
+		Mutant{Name: "tl1-string-253-written-in-medium-form", File: "internal/vkgo/basictl/basictl.go", Rule: "C14-R7",
+			Old: "	case l <= tinyStringLen:\n		w = append(w, byte(l))", New: "	case l < tinyStringLen:\n		w = append(w, byte(l))"})
+}
+
+// classBounds lists, in block order, the upper bounds B of the integer classes `x <= B` that the
+// branches of fn split off by comparing a non-constant with a constant K, lo <= K < hi:
+// (x < K) gives B = K-1 and (K < x) gives B = K, whatever the polarity and the branch taken.
+func classBounds(fn *ssa.Function, lo, hi int64) []int64 {
+	var out []int64
+	for _, b := range fn.Blocks {
+		if len(b.Instrs) == 0 {
+			continue
+		}
+		i, ok := b.Instrs[len(b.Instrs)-1].(*ssa.If)
+		if !ok {
+			continue
+		}
+		l := core.NormLit(i.Cond, true)
+		if l.Op != token.LSS || l.X == nil {
+			continue
+		}
+		if k, isK := core.ConstIntOf(l.Y); isK {
+			if _, xK := core.ConstIntOf(l.X); !xK && k >= lo && k < hi {
+				out = append(out, k-1)
+			}
+		} else if k, isK := core.ConstIntOf(l.X); isK && k >= lo && k < hi {
+			out = append(out, k)
+		}
+	}
+	return out
+}
+
+// C14-R7: the size-class boundaries of the length prefix agree between writers and readers.
+func runC14Extra3(c *core.Check) {
+	c.Decides += " R7 the writers and readers of the TL1 string length prefix and of the TL2 size agree on the largest length written in the one-byte form (253), and the TL2 writers agree on the largest length of the three-byte form (253 + 65536), the TL1 writer uses 2^24-1."
+	c.Rule("C14-R7", "K8 sibling agreement (class boundaries)", 7, "first class bound of TL2ParseSize = first class bound of TL2WriteSize/TL2PutSize/TL2CalculateSize, second bound = first + 65536; first class bound of StringRead/StringReadBytes = first bound of StringWriteLen, second = 2^24-1")
+	const pkg = "internal/vkgo/basictl."
+	type fam struct {
+		name    string
+		readers []string
+		writers []string
+		second  func(first int64) int64
+	}
+	for _, f := range []fam{
+		{"TL2 size", []string{"TL2ParseSize"}, []string{"TL2WriteSize", "TL2PutSize", "TL2CalculateSize"}, func(b int64) int64 { return b + 65536 }},
+		{"TL1 string length", []string{"StringRead", "StringReadBytes"}, []string{"StringWriteLen"}, func(int64) int64 { return 1<<24 - 1 }},
+	} {
+		var first int64 = -1
+		for _, r := range f.readers {
+			fn := need(c, "C14-R7", pkg+r)
+			if fn == nil {
+				continue
+			}
+			bs := classBounds(fn, 128, 256)
+			if len(bs) == 0 {
+				c.Undecided("C14-R7", pkg+r+"/one-byte-class", fn.Pos(), "no comparison of the first byte with a marker constant found")
+				continue
+			}
+			if first < 0 {
+				first = bs[0]
+			}
+			c.Require(bs[0] == first, "C14-R7", pkg+r+"/one-byte-class", fn.Pos(), fmt.Sprintf("reader takes first byte <= %d as the length itself", bs[0]),
+				fmt.Sprintf("%s readers disagree on the largest one-byte length: %d vs %d", f.name, bs[0], first))
+		}
+		for _, w := range f.writers {
+			fn := need(c, "C14-R7", pkg+w)
+			if fn == nil || first < 0 {
+				continue
+			}
+			bs := classBounds(fn, 128, 1<<25)
+			if len(bs) < 2 {
+				c.Undecided("C14-R7", pkg+w+"/classes", fn.Pos(), fmt.Sprintf("expected two class boundaries, found %v", bs))
+				continue
+			}
+			c.Require(bs[0] == first, "C14-R7", pkg+w+"/one-byte-class", fn.Pos(), fmt.Sprintf("writer uses the one-byte form up to %d", bs[0]),
+				fmt.Sprintf("%s: the writer uses the one-byte form for lengths up to %d but the reader takes a first byte up to %d as the length: length %d is written as a byte the reader interprets as a marker (or the other way round)", f.name, bs[0], first, max64(bs[0], first)))
+			c.Require(bs[1] == f.second(first), "C14-R7", pkg+w+"/medium-class", fn.Pos(), fmt.Sprintf("writer uses the medium form up to %d", bs[1]),
+				fmt.Sprintf("%s: the writer uses the medium form for lengths up to %d, the format holds %d", f.name, bs[1], f.second(first)))
+		}
+	}
+}
+
+func max64(a, b int64) int64 {
+	if a > b {
+		return a
+	}
+	return b
+}
+
 // ifBranchOn returns, for the If in fn whose normalised condition matches pat, the successor
 // taken when the condition (as normalised, positive polarity) holds.
 func ifBranchOn(fn *ssa.Function, pat string) *ssa.BasicBlock {
